@@ -37,8 +37,11 @@ TgZcClauses(e) ==
         ELSE Len(e.ret[i].labels) = Len(e.pre[i].labels) /\ \A x \in 1..Len(e.pre[i].labels) :
                Cardinality({y \in 1..Len(e.pre[i].labels) : e.pre[i].labels[y] = e.pre[i].labels[x]})
                = Cardinality({y \in 1..Len(e.ret[i].labels) : e.ret[i].labels[y] = e.pre[i].labels[x]}),
-    C18_tgzc_every_timestamp_is_a_crossing |-> OkZ(e) => \A i \in 1..Len(e.ret) : \A j \in 1..Len(e.ret[i].times) :
-        e.ret[i].times[j] % M = 0 /\ Genuine(e.samples, e.ret[i].times[j] \div M) ]
+    \* (a tier type whose adjustment is switched off - e.args.adjP / adjI - is handed back as it was)
+    C18_tgzc_every_timestamp_is_a_crossing |-> (OkZ(e) /\ Len(e.ret) = Len(e.pre)) => \A i \in 1..Len(e.ret) :
+        IF (e.ret[i].kind = "P" /\ e.args.adjP) \/ (e.ret[i].kind = "I" /\ e.args.adjI)
+        THEN \A j \in 1..Len(e.ret[i].times) : e.ret[i].times[j] % M = 0 /\ Genuine(e.samples, e.ret[i].times[j] \div M)
+        ELSE e.ret[i].times = e.pre[i].times ]
 
 (* audioSplice: audio and splice are sequences of sample ids; tg tiers [kind, name, ents (Seq of [s, e, l] / [t, l])] *)
 SpliceClauses(e) ==
@@ -49,7 +52,9 @@ SpliceClauses(e) ==
       cutAt == e.args.start
        \* with alignment to zero crossings the search may give up, or both ends of a replaced region may snap to the
        \* same crossing (rejected as an empty region): the statement describes what is returned, not these cases
-  IN [ C18_splice_succeeds |-> OkZ(e) \/ (e.args.align /\ e.st \in {"FindZeroCrossingError", "ArgumentError"}),
+       \* ... or a boundary that is moved to its crossing lands on a point that is already there (CollisionError from the
+       \* re-insertion in error mode)
+  IN [ C18_splice_succeeds |-> OkZ(e) \/ (e.args.align /\ e.st \in {"FindZeroCrossingError", "ArgumentError", "CollisionError"}),
        C18_splice_durations_agree_within_a_sample |-> OkZ(e) => (e.rettg.hi - Len(ra) * M <= M /\ Len(ra) * M - e.rettg.hi <= M),
        C18_splice_exactly_one_new_interval |-> OkZ(e) => Cardinality(news) = 1,
        C18_splice_new_interval_covers_inserted_audio |-> (OkZ(e) /\ Cardinality(news) = 1 /\ ~e.args.align) =>
